@@ -1764,6 +1764,46 @@ def canonical_dict_calls(tree: ast.Module) -> int:
     return count[0]
 
 
+def constructor_to_replace(trees: T.Dict[str, ast.Module], tree: ast.Module, unchanged: T.Optional[T.Set[int]] = None) -> int:
+    """`Cls(f1=x.f1, ..., fk=v, ..., fn=x.fn)` with every field of the NamedTuple `Cls` given by keyword and most of them copied
+    from one record `x` is `x._replace(fk=v)` spelled out: rewritten to the `_replace` form the rules know (in functions whose
+    body differs from the pinned tree only)."""
+    records: T.Dict[str, T.List[str]] = {}
+    for t in trees.values():
+        for c in t.body:
+            if isinstance(c, ast.ClassDef) and any(ast.unparse(b).endswith("NamedTuple") for b in c.bases):
+                records[c.name] = [st.target.id for st in c.body if isinstance(st, ast.AnnAssign) and isinstance(st.target, ast.Name)]
+    n = 0
+
+    class Tr(ast.NodeTransformer):
+        def visit_Call(self, call: ast.Call) -> ast.AST:
+            nonlocal n
+            self.generic_visit(call)
+            name = call.func.attr if isinstance(call.func, ast.Attribute) else call.func.id if isinstance(call.func, ast.Name) else None
+            fields = records.get(name or "")
+            if not fields or call.args or any(k.arg is None for k in call.keywords) or sorted(k.arg for k in call.keywords) != sorted(fields):
+                return call
+            src: T.Dict[str, int] = {}
+            for k in call.keywords:
+                if isinstance(k.value, ast.Attribute) and isinstance(k.value.value, ast.Name) and k.value.attr == k.arg:
+                    src[k.value.value.id] = src.get(k.value.value.id, 0) + 1
+            if not src:
+                return call
+            x, cnt = max(src.items(), key=lambda kv: kv[1])
+            if cnt * 2 <= len(fields):
+                return call
+            rest = [k for k in call.keywords if not (isinstance(k.value, ast.Attribute) and isinstance(k.value.value, ast.Name) and k.value.value.id == x and k.value.attr == k.arg)]
+            n += 1
+            return ast.copy_location(ast.Call(func=ast.Attribute(value=ast.Name(id=x, ctx=ast.Load()), attr="_replace", ctx=ast.Load()), args=[], keywords=rest), call)
+
+    for fd in ast.walk(tree):
+        if isinstance(fd, (ast.FunctionDef, ast.AsyncFunctionDef)) and not (unchanged and id(fd) in unchanged):
+            fd.body = [Tr().visit(st) for st in fd.body]
+    if n:
+        ast.fix_missing_locations(tree)
+    return n
+
+
 def normalise_program(trees: T.Dict[str, ast.Module]) -> T.Dict[str, int]:
     """Expand the new helpers of every module (also across sibling modules); returns expanded call sites per module."""
     out = {m: 0 for m in trees}
@@ -1775,6 +1815,7 @@ def normalise_program(trees: T.Dict[str, ast.Module]) -> T.Dict[str, int]:
     LAST_RUN["renames_undone"] = undo_renames(trees)
     LAST_RUN["local_renames_undone"] = undo_local_renames(trees)
     n_disp = 0
+    n_ctor = 0
     n_unrolled = 0
     n_splats = 0
     n_boolret = 0
@@ -1787,6 +1828,7 @@ def normalise_program(trees: T.Dict[str, ast.Module]) -> T.Dict[str, int]:
             same = {id(fd) for q, fd in _qualnames(t).items() if known.get(q) and known[q] == body_hash(fd)}
             # a function that already chose between references on the pinned tree: the rules know that form
             same_disp = same | {id(fd) for q, fd in _qualnames(t).items() if q in baseline_ref_alias().get(m, [])}
+            n_ctor += constructor_to_replace(trees, t, same)
             n_disp += expand_table_dispatch(t, same_disp)
             n_unrolled += unroll_literal_loops(t, same)
             n_splats += expand_kwargs_splats(t, same)
@@ -1794,6 +1836,7 @@ def normalise_program(trees: T.Dict[str, ast.Module]) -> T.Dict[str, int]:
             n_accrep += expand_accumulated_replace(t, same)
             n_chains += split_compare_chains(t, same)
             n_sorts += merge_inplace_sorts(t, same)
+    LAST_RUN["constructors_to_replace"] = n_ctor
     LAST_RUN["dispatch_expanded"] = n_disp
     LAST_RUN["literal_loops_unrolled"] = n_unrolled
     LAST_RUN["kwargs_splats_expanded"] = n_splats
